@@ -29,7 +29,7 @@ from .core import HarnessTimeout, Outcome, Sim, Stats
 from .rng import run_rng
 from .shrink import shrink
 
-RUN_WALL_S = 20
+RUN_WALL_S = 45  # per trace; only hangs should ever reach it (the slowest legitimate traces take 1-3 s on an idle core)
 CHUNK_WALL_S = 3600
 
 
